@@ -423,7 +423,6 @@ class PeriodicGrid(Grid):
         ilc_max = np.floor(self._frac_intvls[:, 1] - frac_center + radius / self._spacings).astype(
             int
         )
-        assert (ilc_min <= ilc_max).all()
 
         # C) Loop over all possible translations of the center
         # ----------------------------------------------------
@@ -456,6 +455,8 @@ class PeriodicGrid(Grid):
             # Store points with the opposite displacement!!
             local_points.append(self._points[indices] - delta)
 
+        if len(local_indices) == 0:
+            return LocalGrid(self._points[:0], self._weights[:0], center, np.zeros(0, dtype=int))
         return LocalGrid(
             np.concatenate(local_points),
             np.concatenate(local_weights),
